@@ -1,5 +1,3 @@
 SPECIFICATION Spec
-INVARIANT PermInvariant
-INVARIANT AsLabelled
-INVARIANT Sound
+INVARIANT AllLemmas
 CHECK_DEADLOCK FALSE
